@@ -12,7 +12,7 @@ PARTIAL = []
 def run(tier, seed):
     res = {"violations": [], "broken": [], "coverage": {}}
     specs = [("muwait_mix", {"VRT_MODE": 0}, 4000, 80000), ("muwait_mix", {"VRT_MODE": 1}, 1000, 20000), ("muwait_mix", {"VRT_MODE": 2}, 2500, 50000),
-             ("muwait_mix", {"VRT_MODE": 0}, 800, 15000, "binary")]
+             ("muwait_mix", {"VRT_MODE": 0}, 800, 15000, "binary"), ("muwait_mix", {"VRT_MODE": 3}, 1500, 30000)]
     cov = scen_common.run_scenarios(res, specs, tier, seed, {"C06", "C05"} | scen_common.LIVENESS | scen_common.CRASHES)
     cov["rule"] = ("muwait_mix: 2..4 waiters on {same f+arg, same f+different arg, eq-equivalent args, different f, no condition} in reader/"
                    "writer mode, setters that end with plain nsync_mu_unlock, a bystander using nsync_mu_unlock_without_wakeup after sections "
